@@ -30,7 +30,7 @@ func (m *Mutex) isFree() bool { return !m.held }
 //go:norace
 func (m *Mutex) Lock() {
 	if vrt.Running() {
-		vrt.PointOp(&vrt.Op{Kind: "mutex.Lock", Obj: uintptr(unsafe.Pointer(m)), Write: true, Ready: m.isFree})
+		vrt.PointOp(&vrt.Op{Kind: "mutex.Lock", Obj: unsafe.Pointer(m), Write: true, Ready: m.isFree})
 	}
 	if m.held && vrt.Running() {
 		panic("vrt: mutex scheduled while held")
@@ -47,7 +47,7 @@ func (m *Mutex) Lock() {
 //go:norace
 func (m *Mutex) TryLock() bool {
 	if vrt.Running() {
-		vrt.PointOp(&vrt.Op{Kind: "mutex.TryLock", Obj: uintptr(unsafe.Pointer(m)), Write: true})
+		vrt.PointOp(&vrt.Op{Kind: "mutex.TryLock", Obj: unsafe.Pointer(m), Write: true})
 	}
 	if !m.real.TryLock() {
 		return false
@@ -59,7 +59,7 @@ func (m *Mutex) TryLock() bool {
 //go:norace
 func (m *Mutex) Unlock() {
 	if vrt.Running() {
-		vrt.PointOp(&vrt.Op{Kind: "mutex.Unlock", Obj: uintptr(unsafe.Pointer(m)), Write: true})
+		vrt.PointOp(&vrt.Op{Kind: "mutex.Unlock", Obj: unsafe.Pointer(m), Write: true})
 	}
 	if !m.held {
 		panic("sync: unlock of unlocked mutex")
@@ -93,7 +93,7 @@ func (m *RWMutex) noWriter() bool { return !m.announced }
 
 //go:norace
 func (m *RWMutex) Lock() {
-	id := uintptr(unsafe.Pointer(m))
+	id := unsafe.Pointer(m)
 	if vrt.Running() {
 		vrt.PointOp(&vrt.Op{Kind: "rwmutex.Lock.announce", Obj: id, Write: true, Ready: m.slotFree})
 		m.wHeld, m.announced = true, true
@@ -111,7 +111,7 @@ func (m *RWMutex) Lock() {
 //go:norace
 func (m *RWMutex) TryLock() bool {
 	if vrt.Running() {
-		vrt.PointOp(&vrt.Op{Kind: "rwmutex.TryLock", Obj: uintptr(unsafe.Pointer(m)), Write: true})
+		vrt.PointOp(&vrt.Op{Kind: "rwmutex.TryLock", Obj: unsafe.Pointer(m), Write: true})
 		if m.wHeld || m.readers > 0 {
 			return false
 		}
@@ -126,7 +126,7 @@ func (m *RWMutex) TryLock() bool {
 //go:norace
 func (m *RWMutex) Unlock() {
 	if vrt.Running() {
-		vrt.PointOp(&vrt.Op{Kind: "rwmutex.Unlock", Obj: uintptr(unsafe.Pointer(m)), Write: true})
+		vrt.PointOp(&vrt.Op{Kind: "rwmutex.Unlock", Obj: unsafe.Pointer(m), Write: true})
 	}
 	if !m.writing {
 		panic("sync: Unlock of unlocked RWMutex")
@@ -138,7 +138,7 @@ func (m *RWMutex) Unlock() {
 //go:norace
 func (m *RWMutex) RLock() {
 	if vrt.Running() {
-		vrt.PointOp(&vrt.Op{Kind: "rwmutex.RLock", Obj: uintptr(unsafe.Pointer(m)), Write: false, Ready: m.noWriter})
+		vrt.PointOp(&vrt.Op{Kind: "rwmutex.RLock", Obj: unsafe.Pointer(m), Write: false, Ready: m.noWriter})
 		m.readers++
 		if !m.real.TryRLock() {
 			panic("vrt: model/real divergence: RWMutex.RLock would block")
@@ -152,7 +152,7 @@ func (m *RWMutex) RLock() {
 //go:norace
 func (m *RWMutex) TryRLock() bool {
 	if vrt.Running() {
-		vrt.PointOp(&vrt.Op{Kind: "rwmutex.TryRLock", Obj: uintptr(unsafe.Pointer(m)), Write: false})
+		vrt.PointOp(&vrt.Op{Kind: "rwmutex.TryRLock", Obj: unsafe.Pointer(m), Write: false})
 		if m.announced {
 			return false
 		}
@@ -167,7 +167,7 @@ func (m *RWMutex) TryRLock() bool {
 //go:norace
 func (m *RWMutex) RUnlock() {
 	if vrt.Running() {
-		vrt.PointOp(&vrt.Op{Kind: "rwmutex.RUnlock", Obj: uintptr(unsafe.Pointer(m)), Write: false})
+		vrt.PointOp(&vrt.Op{Kind: "rwmutex.RUnlock", Obj: unsafe.Pointer(m), Write: false})
 	}
 	if m.readers <= 0 {
 		panic("sync: RUnlock of unlocked RWMutex")
@@ -196,7 +196,7 @@ func (w *WaitGroup) zero() bool { return w.n == 0 }
 //go:norace
 func (w *WaitGroup) Add(d int) {
 	if vrt.Running() {
-		vrt.PointOp(&vrt.Op{Kind: "waitgroup.Add", Obj: uintptr(unsafe.Pointer(w)), Write: false})
+		vrt.PointOp(&vrt.Op{Kind: "waitgroup.Add", Obj: unsafe.Pointer(w), Write: false})
 	}
 	if w.n+d < 0 {
 		panic("sync: negative WaitGroup counter")
@@ -210,7 +210,7 @@ func (w *WaitGroup) Done() { w.Add(-1) }
 //go:norace
 func (w *WaitGroup) Wait() {
 	if vrt.Running() {
-		vrt.PointOp(&vrt.Op{Kind: "waitgroup.Wait", Obj: uintptr(unsafe.Pointer(w)), Write: true, Ready: w.zero})
+		vrt.PointOp(&vrt.Op{Kind: "waitgroup.Wait", Obj: unsafe.Pointer(w), Write: true, Ready: w.zero})
 	}
 	w.real.Wait()
 }
@@ -260,7 +260,7 @@ func (p *Pool) Put(x any) {
 		return
 	}
 	if vrt.Running() {
-		vrt.PointOp(&vrt.Op{Kind: "pool.Put", Obj: uintptr(unsafe.Pointer(p)), Write: true})
+		vrt.PointOp(&vrt.Op{Kind: "pool.Put", Obj: unsafe.Pointer(p), Write: true})
 	}
 	vrt.RaceRelease(&p.tok)
 	if p.n == len(p.items) {
@@ -273,7 +273,7 @@ func (p *Pool) Put(x any) {
 //go:norace
 func (p *Pool) Get() any {
 	if vrt.Running() {
-		vrt.PointOp(&vrt.Op{Kind: "pool.Get", Obj: uintptr(unsafe.Pointer(p)), Write: true})
+		vrt.PointOp(&vrt.Op{Kind: "pool.Get", Obj: unsafe.Pointer(p), Write: true})
 	}
 	n := p.n
 	k := n // miss
@@ -320,7 +320,7 @@ func (c *Cond) Wait() {
 	c.waiters++
 	c.L.Unlock()
 	if vrt.Running() {
-		vrt.PointOp(&vrt.Op{Kind: "cond.Wait", Obj: uintptr(unsafe.Pointer(c)), Write: true, Ready: c.signalled})
+		vrt.PointOp(&vrt.Op{Kind: "cond.Wait", Obj: unsafe.Pointer(c), Write: true, Ready: c.signalled})
 	}
 	c.signals--
 	c.waiters--
@@ -330,7 +330,7 @@ func (c *Cond) Wait() {
 //go:norace
 func (c *Cond) Signal() {
 	if vrt.Running() {
-		vrt.PointOp(&vrt.Op{Kind: "cond.Signal", Obj: uintptr(unsafe.Pointer(c)), Write: true})
+		vrt.PointOp(&vrt.Op{Kind: "cond.Signal", Obj: unsafe.Pointer(c), Write: true})
 	}
 	if c.waiters > c.signals {
 		c.signals++
@@ -340,7 +340,7 @@ func (c *Cond) Signal() {
 //go:norace
 func (c *Cond) Broadcast() {
 	if vrt.Running() {
-		vrt.PointOp(&vrt.Op{Kind: "cond.Broadcast", Obj: uintptr(unsafe.Pointer(c)), Write: true})
+		vrt.PointOp(&vrt.Op{Kind: "cond.Broadcast", Obj: unsafe.Pointer(c), Write: true})
 	}
 	c.signals = c.waiters
 }
